@@ -668,7 +668,11 @@ func Run(c *core.Ctx) int {
 		t.Opts.ViaData = false
 		if t.Op == "correct" && k%2 == 0 {
 			// half of the sample: a complete request, so that the success path is driven too
-			t.Opts = optSet{Type: "credit-note", Reason: true, Ext: true, StampsOpt: k%4 == 0, StampsHead: k%4 != 0, Series: k%8 < 4, CopyTax: k%3 == 0}
+			ty := "credit-note"
+			if k%4 == 2 {
+				ty = "debit-note"
+			}
+			t.Opts = optSet{Type: ty, Reason: true, Ext: true, StampsOpt: k%4 == 0, StampsHead: k%4 != 0, Series: k%8 < 4, CopyTax: k%3 == 0}
 		}
 		t.Via = "cli"
 		if k%3 == 0 {
@@ -938,10 +942,10 @@ func runExternal(c *core.Ctx, cases []tcase, goblBin, today string) {
 	var wg sync.WaitGroup
 	sem := make(chan struct{}, 8)
 	var mu sync.Mutex
-	for _, t := range cases {
+	for idx, t := range cases {
 		wg.Add(1)
 		sem <- struct{}{}
-		go func(t tcase) {
+		go func(idx int, t tcase) {
 			defer wg.Done()
 			defer func() { <-sem }()
 			// the library run on the same case is the reference
@@ -971,7 +975,18 @@ func runExternal(c *core.Ctx, cases []tcase, goblBin, today string) {
 			case "cli":
 				var r clibin.Res
 				if t.Op == "correct" {
-					r = clibin.Run(goblBin, home, input, 60*time.Second, "correct", "-d", string(optionsJSON(t.Opts, m)))
+					// the correction type is given either inside the options data or, for credit and
+					// debit notes, by the command's own flag (every other case alternately)
+					args := []string{"correct", "-d", string(optionsJSON(t.Opts, m))}
+					if flag := map[string]string{"credit-note": "--credit", "debit-note": "--debit"}[t.Opts.Type]; flag != "" && (idx/4)%2 == 1 {
+						o2 := t.Opts
+						o2.Type = ""
+						args = []string{"correct", flag, "-d", string(optionsJSON(o2, m))}
+						mu.Lock()
+						c.Count("via.cli.type-by-flag:"+flag, 1)
+						mu.Unlock()
+					}
+					r = clibin.Run(goblBin, home, input, 60*time.Second, args...)
 				} else {
 					r = clibin.Run(goblBin, home, input, 60*time.Second, "replicate")
 				}
@@ -1059,7 +1074,7 @@ func runExternal(c *core.Ctx, cases []tcase, goblBin, today string) {
 			if e1 != "" || e2 != "" || a != b {
 				c.Fail("", fmt.Sprintf("%s correct result differs from the library result: %s %s %s", t.Via, e1, e2, fieldDiff(a, b)), t)
 			}
-		}(t)
+		}(idx, t)
 	}
 	wg.Wait()
 }
